@@ -256,7 +256,7 @@ class C10(Prop):
             if s.get("solver") in ("RK45", "RK23"):
                 tol = 3e-4 * max(1.0, tau) * nstep * nrm * amp
             if s["kind"] in ("tdvp_vmf", "tdvp_mu_vmf"):
-                tol = 2e-6 * max(1.0, tau) * nstep * nrm * amp
+                tol = 2e-7 * max(1.0, tau) * nstep * nrm * amp
             if s["kind"] in ("tdvp_ps", "tdvp_ps2") and not c09_ps_is_exact(mps, s["kind"]):
                 # second-order splitting error per step (see C09): O((||H||tau)^3), amplified like any perturbation
                 tol = tol + 0.5 * nstep * tau ** 3 * nrm * amp
